@@ -15,9 +15,10 @@ def run(d):
         from bqsa import props
         checks = {}
         for p in sorted(props.PROPS):
-            r = subprocess.run(['./check', p, '--repo', s, '--no-evidence', '--no-battery'], cwd='/verif', capture_output=True, text=True)
+            fj = os.path.join(s, f'findings-{p}.json')
+            r = subprocess.run(['./check', p, '--repo', s, '--no-evidence', '--no-battery', '--findings-json', fj], cwd='/verif', capture_output=True, text=True)
             if r.returncode:
-                rules = sorted({w for l in r.stdout.splitlines() if l.startswith('  ') for w in l.split()[:3] if w.startswith('R-')})
+                rules = sorted({x['rule'] for x in json.load(open(fj)) if not x.get('known')}) if os.path.exists(fj) else ['ANALYSIS-ERROR']
                 checks[p] = {'exit': r.returncode, 'rules': rules}
         meta['caught_now_by'] = checks
         json.dump(meta, open(d + 'meta.json', 'w'), indent=1)
